@@ -169,7 +169,9 @@ package blob
 // ... hence: on the success path the sink holds exactly size bytes whose SHA-256 is out; on
 // every path a sink of size bytes has that hash
 // (cw.w is the sink, i.e. the file f: `w: f` in the literal, never reassigned)
-//@   assert-at return #7 : cw.w.ghost_len == size && (forall k int :: 0 <= k && k < 32 ==> out.sum[k] == shabyte(cw.w.ghost_stream, k))
+// (stated where the success path begins, before the final Close: the call of c.now() on the way
+// to `return nil` is a call through a function value, after which the engine knows nothing)
+//@   assert-at call Close #2 : cw.w.ghost_len == size && (forall k int :: 0 <= k && k < 32 ==> out.sum[k] == shabyte(cw.w.ghost_stream, k))
 //@   assert-at return #4 : cw.w.ghost_len <= size && (cw.w.ghost_len == size ==> (forall k int :: 0 <= k && k < 32 ==> out.sum[k] == shabyte(cw.w.ghost_stream, k)))
 //@   assert-at return #5 : cw.w.ghost_len < size
 //@   assert-at return #6 : cw.w.ghost_len == size && (forall k int :: 0 <= k && k < 32 ==> out.sum[k] == shabyte(cw.w.ghost_stream, k))
